@@ -141,8 +141,8 @@ func Sym_DB_PrepareContext(db *sql.DB, ctx context.Context, query string) (*sql.
 	stmtOf[st] = &stmtRef{s: s, text: query}
 	return st, nil
 }
-func Sym_DB_Close(db *sql.DB) error                          { return nil }
-func Sym_DB_Ping(db *sql.DB) error                           { return nil }
+func Sym_DB_Close(db *sql.DB) error                            { return nil }
+func Sym_DB_Ping(db *sql.DB) error                             { return nil }
 func Sym_DB_PingContext(db *sql.DB, ctx context.Context) error { return nil }
 
 // ---- *sql.Tx
@@ -258,7 +258,7 @@ func Sym_Rows_Next(rs *sql.Rows) bool {
 	return true
 }
 func Sym_Rows_NextResultSet(rs *sql.Rows) bool { return false }
-func Sym_Rows_Err(rs *sql.Rows) error           { return rowsOf[rs].err }
+func Sym_Rows_Err(rs *sql.Rows) error          { return rowsOf[rs].err }
 func Sym_Rows_Close(rs *sql.Rows) error {
 	r := rowsOf[rs]
 	if !r.closed {
